@@ -111,26 +111,36 @@ theorem sub_ok {h : Heap} {b : Batch} (hwf : b.WF h) {from_ to : Nat} (hft : fro
     refine ⟨_, rfl, slice_WF hwf hft hto (by rw [hr]; rfl) ?_, rfl, rfl, rfl, rfl, rfl⟩
     apply ite_foldl_keys
     intro acc p kv hkv
-    split at hkv
-    · by_cases hl : (lookup acc (keyOf p)).isSome = true
-      · simp only [hl, if_true] at hkv; exact Or.inl hkv
-      · simp only [hl] at hkv
-        rcases List.mem_append.mp hkv with hm | hm
-        · exact Or.inl hm
-        · simp at hm; rw [hm]; exact Or.inr rfl
-    · exact Or.inl hkv
+    by_cases hpn : (p == none) = true
+    · simp only [hpn, if_true] at hkv; exact Or.inl hkv
+    · simp only [hpn] at hkv
+      cases hlk : lookup b.split (keyOf p) with
+      | none => rw [hlk] at hkv; exact Or.inl hkv
+      | some r =>
+        rw [hlk] at hkv
+        by_cases hl : (lookup acc (keyOf p)).isSome = true
+        · simp only [hl, if_true] at hkv; exact Or.inl hkv
+        · simp only [hl] at hkv
+          rcases List.mem_append.mp hkv with hm | hm
+          · exact Or.inl hm
+          · simp at hm; rw [hm]; exact Or.inr rfl
   · simp only [hgt rs hr, if_false, bind, Except.bind, pure, Except.pure]
     refine ⟨_, rfl, slice_WF hwf hft hto (by rw [hr]; rfl) ?_, rfl, rfl, rfl, rfl, rfl⟩
     apply ite_foldl_keys
     intro acc p kv hkv
-    split at hkv
-    · by_cases hl : (lookup acc (keyOf p)).isSome = true
-      · simp only [hl, if_true] at hkv; exact Or.inl hkv
-      · simp only [hl] at hkv
-        rcases List.mem_append.mp hkv with hm | hm
-        · exact Or.inl hm
-        · simp at hm; rw [hm]; exact Or.inr rfl
-    · exact Or.inl hkv
+    by_cases hpn : (p == none) = true
+    · simp only [hpn, if_true] at hkv; exact Or.inl hkv
+    · simp only [hpn] at hkv
+      cases hlk : lookup b.split (keyOf p) with
+      | none => rw [hlk] at hkv; exact Or.inl hkv
+      | some r =>
+        rw [hlk] at hkv
+        by_cases hl : (lookup acc (keyOf p)).isSome = true
+        · simp only [hl, if_true] at hkv; exact Or.inl hkv
+        · simp only [hl] at hkv
+          rcases List.mem_append.mp hkv with hm | hm
+          · exact Or.inl hm
+          · simp at hm; rw [hm]; exact Or.inr rfl
 
 theorem sub_panics {b : Batch} {from_ to : Nat} (hbad : from_ > to ∨ to > b.recs.length) :
     ∃ m, b.sub from_ to = .error (.panic m) := by
